@@ -77,8 +77,14 @@ pub fn run_seed(base: u64, prop: &str, index: u64) -> u64 {
 }
 
 fn make_scenario(p: &props::PropDef, tier: &str, base: u64, index: u64) -> Scenario {
+    make_scenario_ex(p, tier, base, index).0
+}
+
+/// returns the scenario and, if it comes from the property's own profile, its index within that
+/// profile (the key under which outcome records are compared across runtimes and schedules)
+fn make_scenario_ex(p: &props::PropDef, tier: &str, base: u64, index: u64) -> (Scenario, Option<u64>) {
     let n = p.extra_profiles.len() as u64;
-    if tier == "thorough" && n > 0 {
+    let (mut sc, own) = if tier == "thorough" && n > 0 {
         // half of the runs come from this property's own profile, the other half is spread over
         // the profiles of the listed other properties (judged by this property's oracle)
         let slot = index % (2 * n);
@@ -86,14 +92,25 @@ fn make_scenario(p: &props::PropDef, tier: &str, base: u64, index: u64) -> Scena
         if slot >= n {
             let gp = props::get(p.extra_profiles[(slot - n) as usize]).expect("unknown extra profile");
             let mut g = sgen::G::new(run_seed(base, p.id, simrt::mix(round / gp.block.max(1), slot)), true);
-            return (gp.generate)(&mut g, round);
+            let mut sc = (gp.generate)(&mut g, round);
+            sc.profile = gp.id.to_string();
+            (sc, None)
+        } else {
+            let own = round * n + slot;
+            let mut g = sgen::G::new(run_seed(base, p.id, own / p.block.max(1)), true);
+            ((p.generate)(&mut g, own), Some(own))
         }
-        let own = round * n + slot;
-        let mut g = sgen::G::new(run_seed(base, p.id, own / p.block.max(1)), true);
-        return (p.generate)(&mut g, own);
+    } else {
+        let mut g = sgen::G::new(run_seed(base, p.id, index / p.block.max(1)), tier == "thorough");
+        ((p.generate)(&mut g, index), Some(index))
+    };
+    if sc.profile.is_empty() {
+        sc.profile = p.id.to_string();
     }
-    let mut g = sgen::G::new(run_seed(base, p.id, index / p.block.max(1)), tier == "thorough");
-    (p.generate)(&mut g, index)
+    if let Some(f) = p.adapt {
+        f(&mut sc);
+    }
+    (sc, own)
 }
 
 #[derive(Serialize, Deserialize)]
@@ -170,19 +187,21 @@ struct RunSummary {
     hung: bool,
     sample: Option<serde_json::Value>,
     outcome: Option<String>,
+    outcome_key: u64,
 }
 
 /// everything that belongs to one run: generate, simulate, judge, summarise
 fn per_run(p: &props::PropDef, tier: &str, base: u64, index: u64, want_sample: bool) -> RunSummary {
-    let sc = make_scenario(p, tier, base, index);
+    let (sc, own) = make_scenario_ex(p, tier, base, index);
     let out = interp::run_scenario(&sc);
     let v = View::new(&sc, &out);
     analysis::coverage_probes(&v);
     let vs = (p.check)(&v);
     let nt = (p.nontrivial)(&v);
     let mut r = RunSummary { nontrivial: nt, hash: out.hash, ..Default::default() };
-    if let Some(f) = p.outcome {
+    if let (Some(f), Some(own)) = (p.outcome, own) {
         r.outcome = Some(format!("{:016x}", prop_salt(&f(&v))));
+        r.outcome_key = own;
     }
     for (k, n) in out.probes.iter().chain(log::take_probes().iter()) {
         *r.probes.entry(k.to_string()).or_insert(0) += n;
@@ -265,7 +284,7 @@ fn worker(args: &[String]) -> i32 {
         hung += r.hung as u64;
         hashes.insert(r.hash);
         if let Some(o) = r.outcome {
-            outcomes.push((index, o));
+            outcomes.push((r.outcome_key, o));
         }
         if r.nontrivial {
             nontrivial += 1;
@@ -483,7 +502,24 @@ fn outcome_cmd(args: &[String]) -> i32 {
     let p = props::get(&args[0]).expect("unknown property");
     let sc: Scenario = if args.len() >= 4 {
         let (pid, t2, base, index) = (p.id.to_string(), args[1].clone(), args[2].parse::<u64>().unwrap(), args[3].parse::<u64>().unwrap());
-        isolate::isolated(move || make_scenario(&props::get(&pid).unwrap(), &t2, base, index)).expect("scenario generation died")
+        // `--own`: the index counts within the property's own profile (the key of outcome records),
+        // which in the thorough tier is not the run index
+        let own = args.iter().any(|a| a == "--own");
+        isolate::isolated(move || {
+            let p = props::get(&pid).unwrap();
+            if own {
+                let mut g = sgen::G::new(run_seed(base, p.id, index / p.block.max(1)), t2 == "thorough");
+                let mut sc = (p.generate)(&mut g, index);
+                sc.profile = p.id.to_string();
+                if let Some(f) = p.adapt {
+                    f(&mut sc);
+                }
+                sc
+            } else {
+                make_scenario(&p, &t2, base, index)
+            }
+        })
+        .expect("scenario generation died")
     } else {
         serde_json::from_slice(&std::fs::read(&args[1]).expect("cannot read scenario")).expect("bad scenario")
     };
